@@ -94,6 +94,8 @@ for it in range(R.n(8, 100)):
     R.check('from_data/same-framing', c, inj.block_size == bs and inj.num_bits == nbits and inj.num_chans == nc and inj.blocks_per_file == min(bpf, N) and inj.input_num_blocks == N
             and inj.header_size == (lambda n: (n + 511) // 512 * 512 if int(inp[0][0].get('DIRECTIO', 0)) else n)(80 * (len(inp[0][0]) + 1)),
             [inj.block_size, inj.num_bits, inj.num_chans, inj.blocks_per_file, inj.input_num_blocks, inj.header_size])
+    objs = [o for tab in (inj.digitizer, inj.filterbank, inj.requantizer) for row in tab for o in row]
+    R.check('from_data/one-independent-pipeline-object-per-antenna-and-polarisation', c, len({id(o) for o in objs}) == len(objs) == 3 * nant * npol, len({id(o) for o in objs}), 3 * nant * npol)
     R.check('from_data/requantiser-components-use-the-input-bit-depth', c, all(q.num_bits == nbits and q.quantizer_r.num_bits == nbits and q.quantizer_i.num_bits == nbits
                                                                                for row in inj.requantizer for q in row), None)
     inj.input_file_handler = open(stem_in + '.0000.raw', 'rb')
@@ -113,6 +115,17 @@ for it in range(R.n(8, 100)):
     R.check('framing/at-most-input-blocks-same-sizes', dict(c, nsub=nsub), len(outb) == N and all(int(h['BLOCSIZE']) == bs and int(h['NBITS']) == nbits for h, _ in outb), len(outb))
     for fn in os.listdir(R.tmp):
         os.unlink(os.path.join(R.tmp, fn))
+# the channelised unit-noise estimate belongs to the filterbank that made it: same geometry, another window, estimated later in the process
+est = {}
+for wf in ('hamming', 'boxcar', 'hamming'):
+    f_ = stg.voltage.PolyphaseFilterbank(num_taps=4, num_branches=16, window_fn=wf)
+    e1 = np.array(f_.estimate_channelized_stds(), dtype=float)
+    e2 = np.array(stg.voltage.PolyphaseFilterbank(num_taps=4, num_branches=16, window_fn=wf).estimate_channelized_stds(seed=R.seed + 5), dtype=float)
+    est.setdefault(wf, []).append((e1, e2))
+ham, box = est['hamming'], est['boxcar']
+R.check('estimate/unseeded-estimate-follows-the-filterbank-window', dict(windows=['hamming', 'boxcar', 'hamming']),
+        all(np.allclose(e1, e2, rtol=0.05) for e1, e2 in ham + box) and not np.allclose(box[0][0], ham[0][0], rtol=0.05), [list(map(float, box[0][0])), list(map(float, ham[0][0]))])
+
 # stationary gain on an adequately sized recording (>= 100 samples per sub-block, so that the per-sub-block statistics of the final
 # requantisation are stable): a constant tone adds the same power in every sub-block and block, digitiser on or off, for sub-block counts
 # that do and do not divide the block.  (On the few-sample blocks above the added power per sub-block is dominated by estimation noise and
